@@ -637,6 +637,20 @@ def r05_11(chk, P, rule='R05.11'):
                     'towards an index of the array by at most the distance to that index (float arithmetic, not decided here)')
     return len(subs)
 
+def r05_12(chk, P):
+    chk.rule('R05.12', 'the reader takes no legal field value for the end of the packet: in every library function that calls '
+             'oggpack_read / oggpack_look, a field of up to 31 bits is tested against -1 / for sign only at a width that holds every '
+             'value the writer can put there (common.eop_alias).  A value the encoder writes and the decoder refuses breaks the '
+             'round trip for exactly the streams that contain it')
+    fs = [F for F in P.functions() if F.entry is not None and (list(F.calls('oggpack_read')) or list(F.calls('oggpack_look')))]
+    n = common.eop_alias(chk, P, 'R05.12', fs)
+    common.eop_alias_selftest(chk, 'R05.12')
+    chk.require(len(fs) >= 12, 'R05.12: fewer than 12 functions call the bit reader (17 on the pinned tree)')
+    chk.ob('R05.12', 'library', 'bit-reader-callers-scanned', True, fs[0].where(),
+           f'{len(fs)} functions call the bit reader; {n} sentinel tests on read-derived values examined')
+    return n
+
+
 def run(chk, P):
     r05_8(chk, P)
     chk.floor('R05.8', 2)
@@ -657,6 +671,8 @@ def run(chk, P):
     chk.floor('R05.9', 2)
     r05_10(chk, P)
     chk.floor('R05.10', 1)
+    r05_12(chk, P)
+    chk.floor('R05.12', 8)
     chk.notes.append(f'R05.1: {npairs} writer/reader pairs ({[f"{a}<->{b}" for a, b in layout.PAIRS + layout.slot_pairs(P)]}), '
                      f'{nfields} aligned fields role-checked')
     chk.trusted += ['clang 14 front end', 'libogg: oggpack_write(b,v,n) appends the low n bits of v; oggpack_read(b,n) returns them',
